@@ -12,6 +12,7 @@ import (
 	"github.com/cloudwego/dynamicgo/meta"
 	"github.com/cloudwego/dynamicgo/proto"
 	"github.com/cloudwego/dynamicgo/proto/binary"
+	"github.com/cloudwego/dynamicgo/proto/protowire"
 )
 
 // memory resize factor
@@ -172,11 +173,20 @@ func (self *visitorUserNode) OnNull() error {
 		self.inskip = false
 		return nil
 	}
-	// self.stk[self.sp].val = &visitorUserNull{}
-	if err := self.incrSP(); err != nil {
-		return err
+	// a null member stands for an absent field, nothing is written
+	if self.globalFieldDesc == nil {
+		// null is neither a message nor an element of a repeated field
+		return newError(meta.ErrDismatchType, "unexpected null value", nil)
 	}
-	return self.onValueEnd()
+	self.globalFieldDesc = nil
+	// null as a map value: drop the pair whose PairTag, PairLen and MapKey have been written by OnObjectKey
+	top := &self.stk[self.sp]
+	if top.typ == mapStkType && top.state.lenPos != -1 {
+		pairTag := uint64(top.state.fieldDesc.Number())<<3 | uint64(proto.BytesType)
+		self.p.Buf = self.p.Buf[:top.state.lenPos-protowire.SizeVarint(pairTag)]
+		self.pop()
+	}
+	return nil
 }
 
 func (self *visitorUserNode) OnBool(v bool) error {
